@@ -11,13 +11,13 @@ use concordium_base::{
     },
     contracts_common::{AccountAddress, SignatureThreshold},
     curve_arithmetic::Curve,
-    elgamal::Message,
+    elgamal::{decrypt_from_chunks_given_table, BabyStepGiantStep, Message},
     id::{
-        account_holder::{create_credential, generate_pio, generate_pio_v1_with_rng},
-        anonymity_revoker::reveal_id_cred_pub,
+        account_holder::{create_credential, generate_id_recovery_request, generate_pio, generate_pio_v1_with_rng},
+        anonymity_revoker::{reveal_id_cred_pub, reveal_prf_key},
         chain::{verify_cdi, verify_initial_cdi},
         constants::{ArCurve, AttributeKind, IpPairing},
-        identity_provider::{verify_credentials, verify_credentials_v1},
+        identity_provider::{validate_id_recovery_request, verify_credentials, verify_credentials_v1},
         secret_sharing::Threshold,
         test::{test_create_ars, test_create_id_use_data, test_create_ip_info},
         types::*,
@@ -55,6 +55,8 @@ pub fn main(args: &[String]) -> i32 {
     let big = |i: u32| ArIdentity::new(u32::MAX - 16 + i);
     let ars_infos_big: BTreeMap<ArIdentity, ArInfo<ArCurve>> = ars_infos_small.iter().map(|(k, x)| (big(u32::from(*k)), ArInfo { ar_identity: big(u32::from(*k)), ..x.clone() })).collect();
     let ars_secret_big: BTreeMap<ArIdentity, _> = ars_secret_small.iter().map(|(k, x)| (big(u32::from(*k)), x.clone())).collect();
+    // table for the decryption of the 32-bit chunks of the PRF key shares (built on first use)
+    let mut table: Option<BabyStepGiantStep<ArCurve>> = None;
     drive(args, "c08-replay", |v, stats| {
         let idx = v["idx"].as_u64().unwrap_or(0);
         let mut rng = StdRng::seed_from_u64(1000 + idx);
@@ -216,6 +218,73 @@ pub fn main(args: &[String]) -> i32 {
                     }
                     if cdi.values.threshold != threshold {
                         return fail("revocation threshold recorded in the credential".into(), json!(thr), J::Null);
+                    }
+                }
+                "recover" => {
+                    // identity recovery: the holder proves knowledge of idCredSec to the provider, bound to provider, chain and time
+                    let p = op["perturb"].as_str().unwrap();
+                    *stats.entry(format!("recover:{}", p)).or_default() += 1;
+                    let ts = 1_700_000_000u64 + idx;
+                    let mut req = match generate_id_recovery_request(&ip_info, &global, &id_use_data.aci.cred_holder_info.id_cred.id_cred_sec, ts) {
+                        Some(r) => r,
+                        None => return fail(format!("op {}: a recovery request can be generated", n), json!("request"), J::Null),
+                    };
+                    let real = global.on_chain_commitment_key.g.mul_by_scalar(&id_use_data.aci.cred_holder_info.id_cred.id_cred_sec);
+                    if req.id_cred_pub != real {
+                        return fail(format!("op {}: the recovery request names the holder's public identity credential", n), J::Null, J::Null);
+                    }
+                    let mut ip_other_identity = ip_info.clone();
+                    ip_other_identity.ip_identity = IpIdentity::from(ip_info.ip_identity.0 + 1);
+                    let got = match p {
+                        "none" => validate_id_recovery_request(&ip_info, &global, &req),
+                        "other_ip_identity" => validate_id_recovery_request(&ip_other_identity, &global, &req),
+                        "other_ip_key" => validate_id_recovery_request(&ip_info2, &global, &req),
+                        "other_global" => validate_id_recovery_request(&ip_info, &global2, &req),
+                        "timestamp" => {
+                            req.timestamp += 1;
+                            validate_id_recovery_request(&ip_info, &global, &req)
+                        }
+                        "id_cred_pub" => {
+                            req.id_cred_pub = req.id_cred_pub.plus_point(&global.on_chain_commitment_key.g);
+                            validate_id_recovery_request(&ip_info, &global, &req)
+                        }
+                        "proof" => {
+                            let mut b = to_bytes(&req);
+                            let k = b.len() - 1 - (idx as usize % 60);
+                            b[k] ^= 1;
+                            match IdRecoveryRequest::<ArCurve>::deserial(&mut Cursor::new(&b[..])) {
+                                Ok(r2) => validate_id_recovery_request(&ip_info, &global, &r2),
+                                Err(_) => false,
+                            }
+                        }
+                        o => return fail(format!("unknown perturbation {}", o), J::Null, J::Null),
+                    };
+                    if got != exp_ok {
+                        return fail(format!("op {}: provider validation of the recovery request under perturbation '{}'", n, p), json!(exp_ok), json!(got));
+                    }
+                }
+                "revoke_prf" => {
+                    // the revokers decrypt their shares of the PRF key from the identity object request held by the provider
+                    let set: Vec<u32> = op["revokers"].as_array().unwrap().iter().map(|x| x.as_u64().unwrap() as u32).collect();
+                    let ar_data = match &id_object {
+                        IdObj::V0(o) => &o.pre_identity_object.ip_ar_data,
+                        IdObj::V1(o) => &o.pre_identity_object.ip_ar_data,
+                    };
+                    let t = table.get_or_insert_with(|| BabyStepGiantStep::new(global.encryption_in_exponent_generator(), 1 << 16));
+                    let mut shares = Vec::new();
+                    for a in set.iter() {
+                        let id = ar_id(*a);
+                        let data = match ar_data.get(&id) {
+                            Some(d) => d,
+                            None => return fail(format!("op {}: chosen revoker {} has no PRF key share in the identity request", n, a), J::Null, J::Null),
+                        };
+                        shares.push((id, decrypt_from_chunks_given_table(&ars_secret[&id], &data.enc_prf_key_share, t, CHUNK_SIZE)));
+                    }
+                    let revealed = reveal_prf_key(&shares);
+                    let real: <ArCurve as Curve>::Scalar = *id_use_data.aci.prf_key.as_ref();
+                    *stats.entry(format!("revoke_prf:{}", exp_ok)).or_default() += 1;
+                    if (revealed == real) != exp_ok {
+                        return fail(format!("op {}: {} of {} revokers (threshold {}) reconstruct the PRF key", n, set.len(), chosen.len(), thr), json!(exp_ok), json!(revealed == real));
                     }
                 }
                 o => return fail(format!("unknown op {}", o), J::Null, J::Null),
